@@ -583,6 +583,12 @@ def run_stage(prop, tier, seed, stage, rng):
         raise Machinery('design check explored no edge')
     # spec -> code: every edge, on every build variant
     jobs = []
+    # bound the work (and the memory) of one stage: beyond the cap, a seeded sample of the explored edges is replayed
+    cap = int(os.environ.get('VERIF_EDGE_CAP', '200000' if tier == QUICK else '300000'))
+    out['edges_explored'] = len(mc['edges'])
+    per_edge = 1 if stage.get('jobs_for') else max(1, len(stage['variants']))
+    if len(mc['edges']) * per_edge > cap:
+        mc['edges'] = random.Random(seed * 31 + len(mc['edges'])).sample(mc['edges'], max(1, cap // per_edge))
     for e in mc['edges'] + mc['viols']:
         h = engine.norm_hist(e['hist'])
         if stage.get('jobs_for'):
@@ -591,12 +597,8 @@ def run_stage(prop, tier, seed, stage, rng):
             continue
         for kw in stage['variants']:
             jobs.append((e['ci'], h, dict(kw), False))
-    # bound the work (and the memory) of one stage: beyond the cap, a seeded sample of the explored edges is replayed
-    cap = int(os.environ.get('VERIF_EDGE_CAP', '200000' if tier == QUICK else '300000'))
-    out['edges_explored'] = len(jobs)
-    if len(jobs) > cap:
-        jobs = random.Random(seed * 31 + len(jobs)).sample(jobs, cap)
     nedge_jobs = len(jobs)
+    mc['edges'] = mc['edges'][:3]       # (memory: the histories live on in the jobs)
     # code side: seeded random drivers on larger charts (appended to the chart list)
     rd = stage.get('random')
     allcharts = list(charts)
